@@ -281,7 +281,7 @@ HARNESSES = [
     Harness("C03.update_psd_faults", update_psd_faults, functions=_F + [PrecipitateModel._updateParticleSizeDistribution, PBM.adjustSizeClassesEuler, PrecipitateModel._getdXdt],
             assumptions=_A + ["driving force >= 0 and precipitates present (the re-binning branch)"], stubs=["as C03.faults_multi"],
             opts={"ob_timeout": 30.0}, budget={"quick": 150.0, "thorough": 1200.0},
-            params={"quick": [{"nph": 1, "ncls": 2, "nel": 2}], "thorough": [{"nph": 2, "ncls": 2, "nel": 2}, {"nph": 1, "ncls": 2, "nel": 2, "remesh": True}, {"nph": 1, "ncls": 3, "nel": 2}]}),
+            params={"quick": [{"nph": 1, "ncls": 2, "nel": 2}], "thorough": [{"nph": 2, "ncls": 2, "nel": 2, "_shards": 8}, {"nph": 1, "ncls": 2, "nel": 2, "remesh": True, "_shards": 8}, {"nph": 1, "ncls": 3, "nel": 2, "_shards": 4}]}),
     Harness("C03.transport_any_radius", _c07.nuc_class, functions=[PBM.getdXdtEuler, PBM.correctdXdtEuler],
             assumptions=["as C07.nuc_class: the nucleation radius is unconstrained (inside, below or above the grid); no internal error on any path"],
             params={"quick": [{"n": 2}], "thorough": [{"n": 3}]}),
